@@ -33,3 +33,12 @@
         let r: f64 = kani::any();
         assert!(do_divition(l, r) != 0.0, "OBL:canary_false_clause");
     }
+
+    // driver self-test: Rust's own overflow assertion must stay an obligation when CBMC's
+    // float/NaN instrumentation is switched off (--no-overflow-checks)
+    #[kani::proof]
+    fn canary_i64_overflow() {
+        let l: i64 = kani::any();
+        let r = l + 1;
+        assert!(r > l, "OBL:canary_false_clause");
+    }
